@@ -9,8 +9,21 @@ PROFILES = {
     "elections": (1.2,    0.05,  0.0,   0.3,      1.0),
     "lossy":     (0.4,    0.25,  0.0,   0.6,      1.5),
     "crash":     (0.4,    0.05,  0.25,  0.5,      1.5),
-    "retry":     (0.25,   0.05,  0.05,  1.5,      2.0),
+    "retry":     (0.04,   0.04,  0.03,  1.2,      2.5),
+    "service":   (0.03,   0.02,  0.0,   0.25,     3.0),
 }
+
+
+def scripted_election(n, i=1):
+    """events that make server i the leader of term 2 from the initial state (no interference)"""
+    ev = [("ERVTimeout", i, True, 0)] + [("ERVSend", i, 0, True)] * (n + 1)
+    others = [j for j in range(1, n + 1) if j != i]
+    for j in others:
+        ev += [("EServerLoop", j, 0), ("EHandleMsg", j, 0, True)]
+    for j in others:
+        ev += [("EServerLoop", i, 0), ("EHandleMsg", i, 0, True)]
+    ev += [("EBecomeLeader", i, 0), ("EAELoop", i, 0)] + [("EAESend", i, 0, True)] * (n + 1)
+    return ev
 
 
 def tuple_event(e):
@@ -26,10 +39,26 @@ def live_leader(w):
     return any(g["state"][i] == "leader" and g["network"][i]["enabled"] for i in w.servers())
 
 
+def pick_position(rng, w, d, D):
+    """choose a deliverable position of node d's queue; messages from the walk's `slow` sources are delayed"""
+    slow = getattr(w, "slow", ())
+    q = w.queue(d)
+    wts = [0.04 if q[k]["msource"] in slow else 1.0 for k in D]
+    x = rng.random() * sum(wts)
+    for k, wt in zip(D, wts):
+        x -= wt
+        if x <= 0:
+            return k
+    return D[-1]
+
+
 def choose_event(rng, w, profile):
     p_timeout, p_drop, p_crash, p_ctimeout, p_creq = PROFILES[profile]
     g, n = w.g, w.n
     cands = []   # (weight, event)
+    if rng.random() < 0.01:      # change which sources are slow
+        nodes = list(w.servers()) + w.client_ids()
+        w.slow = set(rng.sample(nodes, rng.randint(0, min(2, len(nodes)))))
 
     def send_choice():
         r = rng.random()
@@ -47,7 +76,9 @@ def choose_event(rng, w, profile):
         if w.pc["s%d.0" % i] == "AServer.serverLoop":
             D = w.deliverable(i)
             if D:
-                cands.append((6 * f, ("EServerLoop", i, rng.choice(D))))
+                slow = getattr(w, "slow", ())
+                allslow = all(q[k]["msource"] in slow for k in D)
+                cands.append(((0.5 if allslow else 6) * f, ("EServerLoop", i, pick_position(rng, w, i, D))))
             else:
                 cands.append((0.15 * f, ("EServerLoop", i, 0)))
         else:
@@ -106,7 +137,7 @@ def choose_event(rng, w, profile):
         else:
             D = w.deliverable(c)
             if D:
-                cands.append((5, ("EClientRcv", c, rng.choice(D))))
+                cands.append((5, ("EClientRcv", c, pick_position(rng, w, c, D))))
             else:
                 cands.append((0.05, ("EClientRcv", c, 0)))
             r = rng.random()
@@ -124,8 +155,15 @@ def choose_event(rng, w, profile):
 
 
 def gen_params(rng, tier, for_c09=False):
-    n = rng.choice([1, 2, 3, 3, 3, 4, 5]) if not for_c09 else rng.choice([1, 2, 3, 3])
-    nc = rng.choice([1, 1, 2, 3]) if not for_c09 else rng.choice([1, 2, 2, 3])
+    if for_c09:
+        n = rng.choice([1, 1, 2, 3, 3])
+        nc = rng.choice([1, 2, 2, 3])
+        maxfail = (n - 1) // 2
+        crashers = sorted(rng.sample(range(1, n + 1), rng.randint(0, maxfail))) if (maxfail > 0 and rng.random() < 0.4) else []
+        return {"n": n, "nc": nc, "buf": rng.choice([3, 4, 6, 10]), "fifo": True, "explorefail": True,
+                "crashers": crashers, "keys": rng.choice([1, 1, 2, 3]), "vals": rng.choice([2, 3])}
+    n = rng.choice([1, 2, 3, 3, 3, 4, 5])
+    nc = rng.choice([1, 1, 2, 3])
     maxfail = (n - 1) // 2
     crashers = sorted(rng.sample(range(1, n + 1), rng.randint(0, maxfail))) if maxfail > 0 else []
     return {"n": n, "nc": nc, "buf": rng.choice([2, 3, 4, 6, 10]), "fifo": True, "explorefail": True,
@@ -136,10 +174,12 @@ class WalkResult:
     pass
 
 
-def walk(h, rng, params, nsteps, profile, on_step=None, full_every=25):
+def walk(h, rng, params, nsteps, profile, on_step=None, full_every=25, prefix=()):
     """returns WalkResult: steps [(observed event, code, hash, digest|None)], events (intended), failures, stats"""
     w = h.new(params)
     n = params["n"]
+    nodes = list(w.servers()) + w.client_ids()
+    w.slow = set(rng.sample(nodes, rng.randint(0, min(2, len(nodes)))))
     tracker = R.CommitTracker(w)
     res = WalkResult()
     res.params, res.profile = params, profile
@@ -149,8 +189,10 @@ def walk(h, rng, params, nsteps, profile, on_step=None, full_every=25):
     res.crashed = False
     res.maxnet = 0
     res.spec_lc_violations = 0
+    prefix = list(prefix)
+    nsteps = nsteps + len(prefix)
     for k in range(nsteps):
-        ev = choose_event(rng, w, profile)
+        ev = prefix[k] if k < len(prefix) else choose_event(rng, w, profile)
         pick = rng.randrange(n)
         m_before = w.loc("s%d.0" % ev[1], "AServer.m") if ev[0] == "EHandleMsg" else None
         oev, outcome, out = R.do_event(h, w, ev, pickidx=pick)
